@@ -10,28 +10,33 @@ Decided:
          can only hit signature / bitmap octets (judged this strictly while the expansion routine is not given the record
          type, see R26.4; a layout-aware routine may be asked about any name-bearing type).  It must answer True for the RFC 1035 well-known types and SRV
          (MUST_BE_EXPANDED) => otherwise compressed names are forwarded with dangling pointers.
-  R26.2  symbolic path analysis of `DNSMessage.unpack_from.unpack_rrs` (offsets as linear terms): on every path that
-         appends a record, RDATA is `buffer[o:o+len]` (o = right after the RR header, len = header's length field) when the
-         predicate is False for *this record's* type, and the decompression routine applied to exactly that window when
-         it is True; the next record starts at o+len; type/class/ttl come from the header fields in order.
-  R26.3  repack identity: DNSLayer.handle_request / handle_response send `pack_message(<the unpacked message object or
-         flow.request/response it was stored in>)` to the server / client; state_query hands them the elements of
-         `unpack_message(event.data, ..)`; pack_message = `message.packed` with, for TCP, a length prefix in the same
-         2-byte big-endian format the reader uses; `DNSMessage.packed` emits each record's header with len(rr.data) followed
-         by rr.data itself, sections in wire order.
-  R26.4  information-flow necessity (F-C26b, NOT repaired, known finding): if the predicate is True both for a type whose
-         RDATA starts with a name (CNAME/NS/PTR) and for one that starts with / contains integer fields (MX, SRV, SOA ...),
-         the rewriting routine must depend on the record type - a type-agnostic byte scan cannot tell the pointer
-         `C0 0C` of a CNAME from the SRV port 49164.
-  R26.5  finite evaluation of the expansion routine itself: `decompress_from_record_data` and everything it calls
-         (`unpack_from_with_compression`, `_unpack_label_into`, `pack`) are *interpreted from their ASTs* (pyint; `struct`
+  R26.2  the record parser (`DNSMessage.unpack_from`, *interpreted from its AST*) on one response per RR type number (all of
+         net/dns/types.py + probes), the record under test sitting between an MX record and an A record: when the predicate is
+         False for *this record's* type the data is the exact wire slice [header end, + length field) although it contains
+         octets that look like compression pointers; when it is True (and the rule knows the layout) the names in exactly that
+         window are expanded; type/class/ttl come from the header fields in order; the next record is read from the window end.
+  R26.3  repack identity: DNSLayer.handle_request / handle_response (private helper methods inlined) send
+         `pack_message(<the unpacked message object or flow.request/response it was stored in>)` to the server / client;
+         state_query hands them the elements of `unpack_message(event.data, ..)`; interpreted: pack_message = `message.packed`
+         for datagrams and, for TCP, preceded by its 2-byte big-endian length, and `DNSLayer.unpack_message` reads the stream
+         pack_message wrote back message by message (whole and split across chunks); `DNSMessage.packed` emits bytes the reference
+         decoder reads as the same records: data verbatim with its own length (pointer-like octets, 300 octets), sections in wire order.
+  R26.4  layout dependence (F-C26b, NOT repaired, known finding): if the predicate is True both for a type whose RDATA starts
+         with a name (CNAME/NS/PTR) and for one that starts with / contains integer fields (MX, SRV, SOA ...), the expansion must
+         depend on the record's layout - a type-agnostic byte scan cannot tell the pointer `C0 0C` of a CNAME from the SRV port
+         49164.  Decided by interpretation: records of every such layout whose numeric / opaque fields contain `C0 0C` are parsed;
+         the data must be the reference expansion (names expanded, every other octet kept).  A parameter that merely carries
+         the type for diagnostics does not help; a layout-aware routine passes.  The routine is named by observation (the
+         domain_names function the message parser calls for predicate-True records only).
+  R26.5  finite evaluation of the expansion routine itself, through the message parser: `DNSMessage.unpack_from`,
+         `decompress_from_record_data` and everything they call are *interpreted from their ASTs* (pyint; `struct`
          and the idna codec are the trusted base) on small, realistic response messages - one per distinct RDATA layout of
          the types the predicate answers True for (name; name name; name name u32*5; u16 name; u16 name name; u16*3 name;
          NAPTR; SIG; NXT), x numeric field values (zero / typical small values such as MX preference 10, SRV priority 10
          weight 5, SOA timers / values with a different small octet in every position), x name forms (pointer to the question
          name; labels + pointer into an earlier record's RDATA, itself ending in a pointer; uncompressed; punycode label +
          pointer; for SOA also: pointer to an internationalised owner name / to the root name followed by a second compressed
-         name - F-C26c, repaired, findings/F-C26c/repro.py), with an empty name cache and with the cache the message parser has filled at that point.  The result must be
+         name - F-C26c, repaired, findings/F-C26c/repro.py), with the name cache the message parser has filled at that point.  The result must be
          the RDATA with every name replaced by its uncompressed wire form and every other octet unchanged (computed here by
          an independent reference walk over the layout).  => otherwise a compressed name is forwarded with a dangling /
          retargeted pointer or numeric fields are damaged: the receiver reads a different record.
@@ -45,42 +50,43 @@ import ast
 import struct
 
 from ..core import AnalysisError
-from ..core import norm
 from ..model import attr_chain
-from ..model import last_attr
-from ..model import walk_in_order
-from ..paths import C
-from ..paths import is_const
-from ..paths import State
 from ..paths import traces_of
-from ..paths import UNKNOWN
-from ..pyint import Interp
-from ..pyint import Raised as IRaised
 from ..selftest import Mutant
-from ._helpers_D import attr_of
 from ._helpers_D import call_args
-from ._helpers_D import Concrete
 from ._helpers_D import int_constants
 from ._helpers_D import last_attr_name
-from ._helpers_D import lin_add
-from ._helpers_D import Raised
-from ._helpers_D import same
 from ._helpers_D import SendSpec
 from ._helpers_D import show
 from ._helpers_D import sym
 from ._helpers_D import SymSpec
 from ._helpers_D import unhook
+from ._helpers_dnsref import diff
+from ._helpers_dnsref import DnsInterp
+from ._helpers_dnsref import layer_self
+from ._helpers_dnsref import layer_unpack
+from ._helpers_dnsref import mk_message
+from ._helpers_dnsref import packed
+from ._helpers_dnsref import public
+from ._helpers_dnsref import ref_decode
+from ._helpers_dnsref import ref_name
+from ._helpers_dnsref import RefError
+from ._helpers_dnsref import require_fields
+from ._helpers_dnsref import roomy
+from ._helpers_dnsref import SECTIONS
+from ._helpers_dnsref import unpack
+from ._helpers_dnsref import unpack_from
 
 PROP = "C26"
 REG = {
     "strength": "partial",
-    "technique": "finite evaluation of the compression predicate over all RR types; interpretation (pyint) of the RDATA expansion routine on sample "
-    "records of every RDATA layout in the table against an independent reference expansion; symbolic (linear-offset) path analysis of the record "
-    "parser; provenance of the bytes sent by DNSLayer; information-flow necessity for per-type RDATA layouts",
+    "technique": "AST interpretation (pyint) of the compression predicate over all RR types, of the message parser + RDATA expansion routine on sample "
+    "records of every RDATA layout in the table against an independent reference expansion, of pack_message / DNSLayer.unpack_message / DNSMessage.packed against the "
+    "RFC 1035 reference; provenance of the bytes sent by DNSLayer (symbolic path analysis, private helpers inlined)",
     "claim": "only RR types whose RDATA may carry compressed names (RFC 3597 s.4) are ever rewritten and the RFC 1035 types + SRV always are; on the sampled "
     "records the expansion routine expands exactly the names (pointer chains, IDN / root targets, numeric fields in front) and changes nothing else; for all other types RDATA is the exact wire slice; the layer repacks the very "
-    "message object it unpacked; framing prefix formats agree; packed() emits rr.data verbatim. Reports (known finding F-C26b) that the "
-    "RDATA rewriting routine is type-agnostic although the table mixes name-first and integer-first layouts.",
+    "message object it unpacked; framing written by pack_message is read back by the layer's reader; packed() emits rr.data verbatim. Reports (known finding F-C26b) that the "
+    "RDATA rewriting is type-agnostic although the table mixes name-first and integer-first layouts.",
     "note": "Reference set = RR types whose RDATA may carry compressed names per RFC 3597 section 4 (RFC 1035 well-known types + RP AFSDB RT SIG PX NXT "
     "NAPTR SRV), part of the rule (IANA numbers). struct / idna are trusted library behaviour.",
 }
@@ -125,237 +131,8 @@ PROBES = {0: "reserved", 16: "TXT", 13: "HINFO", 1: "A", 28: "AAAA", 10: "NULL",
           65280: "private use", 65534: "private use", 4242: "unassigned"}
 
 
-def module_resolver(model, rel):
-    mod = model.module(rel)
-    cache: dict = {}
-
-    def resolve(dotted):
-        if dotted in cache:
-            return cache[dotted]
-        head, _, rest = dotted.partition(".")
-        if rest and head in mod.imports:
-            target = model.module_by_dotted(mod.imports[head])
-            if target is not None and "." not in rest:
-                consts = int_constants(model, target.rel)
-                if rest in consts:
-                    cache[dotted] = consts[rest]
-                    return consts[rest]
-        if not rest:
-            vals = mod.assigns(head)
-            if len(vals) == 1:
-                v = Concrete(resolve).expr(vals[0], {})
-                cache[dotted] = v
-                return v
-        raise KeyError(dotted)
-
-    return resolve
-
 
 # ---------------------------------------------------------------------------------------------------
-
-
-class RRSpec(SymSpec):
-    """symbolic execution of unpack_rrs: append events and predicate events with symbolic operands"""
-
-    def stmt_events(self, stmt, st, depth):
-        out = []
-        if isinstance(stmt, ast.Expr) and isinstance(stmt.value, ast.Call):
-            f = stmt.value.func
-            if isinstance(f, ast.Attribute) and f.attr == "append" and len(stmt.value.args) == 1:
-                out.append(("append", self.value(f.value, st, depth), self.value(stmt.value.args[0], st, depth)))
-        return out
-
-    def cond_event(self, expr, value, st):
-        if isinstance(expr, ast.Call) and last_attr(expr.func) == "record_data_can_have_compression" and len(expr.args) == 1:
-            return ("pred", self.value(expr.args[0], st, self._depth), value)
-        return None
-
-
-def rr_fields(model) -> list[str]:
-    cls = model.cls(DNS, "ResourceRecord")
-    out = []
-    for st in cls.body:
-        if isinstance(st, ast.AnnAssign) and isinstance(st.target, ast.Name) and "ClassVar" not in ast.unparse(st.annotation):
-            out.append(st.target.id)
-    return out
-
-
-def strip_bytes(v):
-    if isinstance(v, tuple) and v and v[0] == "call" and v[1] in ("bytes", "bytearray") and len(v[2]) == 1:
-        return v[2][0]
-    return v
-
-
-def contains(v, needle) -> bool:
-    if v == needle:
-        return True
-    if isinstance(v, tuple):
-        return any(contains(x, needle) for x in v)
-    return False
-
-
-def check_r261(ctx, type_aware=False):
-    m = ctx.model
-    fn = ctx.func(DN, "record_data_can_have_compression")
-    resolve = module_resolver(m, DN)
-    types = int_constants(m, TYPES)
-    ctx.require(len(types) >= 80, f"{TYPES}: only {len(types)} integer constants found")
-    numbers = {num: name for name, num in types.items()}
-    for num, name in PROBES.items():
-        numbers.setdefault(num, name)
-    true_types = set()
-    for num in sorted(numbers):
-        try:
-            r = Concrete(resolve).call(fn, num)
-        except Raised as e:
-            raise AnalysisError(f"record_data_can_have_compression({num}) raises {e.name}")
-        ctx.cells += 1
-        if not isinstance(r, bool):
-            raise AnalysisError(f"record_data_can_have_compression({num}) evaluates to non-bool {r!r}")
-        if r:
-            true_types.add(num)
-            if num in NAME_BEARING:
-                why = (f"RDATA of {numbers[num]} embeds a domain name, but RFC 3597 s.4 (and the RFC defining {numbers[num]}) forbids compressing it, so no sender puts a pointer "
-                       "there; the type-agnostic byte scan can only hit the opaque octets around the name (signature, type bitmap, key, preference) that look like "
-                       "`C0 xx` and replace them by an expanded name: the record is not forwarded byte-for-byte")
-            else:
-                why = (f"RDATA of {numbers[num]} is opaque (no domain name defined in it): bytes that look like a compression pointer (0xC0..) are rewritten when the "
-                       "message is forwarded")
-            # a rewriting routine that is told the record type can confine itself to the name field(s) of the layout: there a
-            # (forbidden, hence absent) pointer is never found and the opaque octets are not looked at - harmless
-            allowed = MAY_BE_COMPRESSED if not type_aware else NAME_BEARING
-            ctx.check(
-                num in allowed, "R26.1", (DN, "record_data_can_have_compression", fn),
-                f"record type {numbers[num]} ({num}) is treated as containing compressible names", why,
-                desc=f"{numbers[num]}({num}) -> True, RDATA may carry compressed names (RFC 3597 s.4)",
-            )
-    ctx.require(true_types, "record_data_can_have_compression is False for every type: name-bearing records would keep dangling pointers")
-    for num, name in sorted(MUST_BE_EXPANDED.items()):
-        ctx.require(num in numbers, f"{TYPES}: RR type {name} ({num}) is not defined any more")
-        ctx.check(
-            num in true_types, "R26.1", (DN, "record_data_can_have_compression", fn),
-            f"record type {name} ({num}) is not treated as containing compressible names",
-            f"senders do compress the names in {name} RDATA (RFC 1035 s.4.1.4 / RFC 3597 s.4: receivers MUST decompress them); kept as a raw slice the pointer is forwarded "
-            "unexpanded while re-packing moves every offset, so the receiver reads a different name",
-            desc=f"{name}({num}) -> True as required",
-        )
-    ctx.note(f"R26.1 evaluated the predicate for {len(numbers)} type numbers; True for {sorted(true_types)}")
-    return true_types
-
-
-def check_r262(ctx):
-    """-> list of symbolic decompression calls seen on predicate-True paths (for R26.4)"""
-    m = ctx.model
-    fn = ctx.func(DNS, "DNSMessage.unpack_from.unpack_rrs")
-    helper = ctx.func(DNS, "DNSMessage.unpack_from.unpack_domain_name")
-    shared = set()
-    for f in (fn, helper):
-        for n in ast.walk(f):
-            if isinstance(n, ast.Nonlocal):
-                shared.update(n.names)
-    ctx.require({"buffer", "offset"} <= shared, "unpack_rrs no longer shares buffer/offset with unpack_from via nonlocal")
-    spec = RRSpec(shared=shared | {"cached_names"}, inline_map={"unpack_domain_name": helper})
-    traces, eng = traces_of(fn, spec)
-    ctx.paths += len(traces)
-    fields = rr_fields(m)
-    ctx.require(fields == ["name", "type", "class_", "ttl", "data"], f"ResourceRecord fields changed: {fields}")
-    where = (DNS, "DNSMessage.unpack_from.unpack_rrs", fn)
-    rewriters = []
-    seen = {"slice": 0, "rewrite": 0}
-    for trace, how, st in traces:
-        apps = [e for e in trace if e[0] == "append"]
-        if not apps:
-            continue
-        if how != "return":
-            continue
-        ctx.require(len(apps) == 1, f"unpack_rrs appends {len(apps)} records in one iteration")
-        _, section, rr = apps[0]
-        args = call_args(rr, fields)
-        if args is None or last_attr_name(rr) != "ResourceRecord" or len(args) != 5:
-            raise AnalysisError(f"unpack_rrs appends something that is not ResourceRecord(name, type, class_, ttl, data): {show(rr)}")
-        name_v, type_v, class_v, ttl_v, data_v = args
-        hdr = type_v[1] if isinstance(type_v, tuple) and type_v[0] == "idx" else None
-        hargs = call_args(hdr)
-        if hdr is None or hargs is None or not hdr[1].endswith("HEADER.unpack_from") or len(hargs) != 2:
-            raise AnalysisError(f"record type does not come from <RR header>.unpack_from(buffer, offset): {show(type_v)}")
-        buf_v, hoff_v = hargs
-        ok_fields = type_v == ("idx", hdr, C(0)) and class_v == ("idx", hdr, C(1)) and ttl_v == ("idx", hdr, C(2))
-        ctx.check(ok_fields, "R26.2", where, "ResourceRecord(type, class_, ttl) <- header fields 0,1,2",
-                  f"record built with type={show(type_v)} class={show(class_v)} ttl={show(ttl_v)}: header fields are permuted", desc="type/class/ttl from header fields 0,1,2")
-        len_v = ("idx", hdr, C(3))
-        preds = [e for e in trace if e[0] == "pred"]
-        raw = strip_bytes(data_v)
-        # window
-        if isinstance(raw, tuple) and raw and raw[0] == "slice":
-            base, lo, hi = raw[1], raw[2], raw[3]
-            kind = "slice"
-        elif isinstance(raw, tuple) and raw and raw[0] == "call":
-            callee = raw[1].rsplit(".", 1)[-1]
-            params = [x.arg for x in m.func(DN, callee).args.args] if raw[1].startswith("domain_names.") and m.has(DN, callee) else None
-            a = call_args(raw, params)
-            if a is None or len(a) < 3:
-                raise AnalysisError(f"RDATA produced by a call the rule cannot read a window from: {show(raw)}")
-            base, lo, hi = a[0], a[1], a[2]
-            kind = "rewrite"
-        else:
-            raise AnalysisError(f"RDATA of unmodelled provenance: {show(raw)}")
-        start = lin_add(lo, hoff_v, -1)
-        if start == UNKNOWN:
-            raise AnalysisError(f"RDATA window start is not linear in the header offset: {show(lo)}")
-        ok_window = same(base, buf_v) and start == lin_add(sym("ResourceRecord.HEADER.size"), C(0)) and same(hi, lin_add(lo, len_v))
-        ctx.check(ok_window, "R26.2", where, f"RDATA window ({kind})",
-                  f"RDATA is taken from {show(base)}[{show(lo)} : {show(hi)}] but the record's data occupies [header offset + HEADER.size, + header length field) "
-                  f"= [{show(lin_add(hoff_v, sym('ResourceRecord.HEADER.size')))}, +{show(len_v)})", desc=f"{kind}: window = header end .. + len_data")
-        nxt = st.get("nl:offset")
-        ctx.check(same(nxt, lin_add(lo, len_v)), "R26.2", where, "offset after the record",
-                  f"next record is parsed from {show(nxt)} instead of the end of this record's data", desc=f"{kind}: next record at window end")
-        # predicate discipline
-        on_type = [p for p in preds if same(p[1], type_v)]
-        if kind == "slice":
-            seen["slice"] += 1
-            bad = [p for p in preds if p[2]]
-            ctx.check(len(on_type) == 1 and not bad, "R26.2", where, "raw RDATA slice only when the predicate is False for the record's type",
-                      f"RDATA kept as the raw slice on a path where the compression predicate events are {[(show(p[1]), p[2]) for p in preds]}: "
-                      "names in name-bearing records keep dangling compression pointers / predicate is not asked about this record's type",
-                      desc="raw slice <=> predicate(type) False")
-        else:
-            seen["rewrite"] += 1
-            good = len(on_type) == 1 and on_type[0][2] is True and len(preds) == 1
-            ctx.check(good, "R26.2", where, "RDATA rewritten only when the predicate is True for the record's type",
-                      f"RDATA is rewritten by {raw[1]} on a path where the compression predicate events are {[(show(p[1]), p[2]) for p in preds]} "
-                      f"(record type is {show(type_v)}): opaque record data is rewritten", desc="rewrite <=> predicate(type) True")
-            rewriters.append((raw, type_v))
-    ctx.require(seen["slice"] >= 1 and seen["rewrite"] >= 1 or ctx.findings, f"unpack_rrs: expected a raw-slice path and a rewriting path, saw {seen}")
-    return rewriters
-
-
-def check_r264(ctx, true_types, rewriters):
-    fn = ctx.func(DNS, "DNSMessage.unpack_from.unpack_rrs")
-    name_first = sorted(true_types & NAME_FIRST)
-    mixed = sorted(true_types & HAS_NON_NAME_FIELDS)
-    if not (name_first and mixed):
-        ctx.ok("R26.4", "table has no two types with conflicting layouts; a type-agnostic routine is admissible")
-        return
-    if not rewriters:
-        if any(f.rule == "R26.2" for f in ctx.findings):
-            ctx.instance("R26.4", "not evaluated: R26.2 reports that predicate-True paths do not rewrite at all")
-            return
-        raise AnalysisError("R26.4: no rewriting call found on predicate-True paths")
-    for raw, type_v in rewriters:
-        callee = raw[1].rsplit(".", 1)[-1]
-        depends = contains(raw[2], type_v)
-        ctx.check(
-            depends, "R26.4", (DNS, "DNSMessage.unpack_from.unpack_rrs", fn),
-            f"{callee} is applied to RDATA without the record type",
-            f"the table is True for name-first layouts {[NAME_BEARING[t] for t in name_first]} and for layouts with integer/opaque fields "
-            f"{[NAME_BEARING[t] for t in mixed]}, but {callee} receives only (buffer, window, name cache) and cannot know the type: bytes >= 0xC0 in MX preference, "
-            "SRV port (49152..65535), SOA counters are read as compression pointers and replaced (repro: findings/F-C26b/repro.py)",
-            desc=f"{callee} receives the record type",
-        )
-
-
-# ---------------------------------------------------------------------------------------------------
-# R26.5  the expansion routine evaluated on representative messages
 
 # distinct RDATA layouts of the RFC 3597 s.4 types (RFC 1035 s.3.3, RFC 1183, RFC 2163, RFC 2782, RFC 2915, RFC 2535)
 LAYOUTS = {
@@ -384,42 +161,35 @@ VECTORS = {
               "str": lambda i: bytes([i + 1, 0x20 + i]), "opaque": lambda i: bytes([7, 0, 3, 0x40, 0x7F, 0xBF, 1, 2, 0x3F, 0x0C])},
 }
 QNAME_AT = 12
+TRAILER = (1, 1, 77, b"\xc0\x0c\x7f\x01")  # an A record behind the record under test (type, class, ttl, opaque RDATA that looks like a pointer)
 
 
 def _wire(labels):
     return b"".join(bytes([len(x)]) + x for x in labels) + b"\x00"
 
 
-def _ref_name(buf, off, depth=0):
-    """reference decoder: (labels, wire length at ``off``)"""
-    labels, start = [], off
-    while True:
-        n = buf[off]
-        if n & 0xC0 == 0xC0:
-            if depth > 20:
-                raise AnalysisError("R26.5: reference decoder met a pointer loop in its own sample")
-            tgt = ((n & 0x3F) << 8) | buf[off + 1]
-            return labels + _ref_name(buf, tgt, depth + 1)[0], off + 2 - start
-        if n == 0:
-            return labels, off + 1 - start
-        labels.append(bytes(buf[off + 1 : off + 1 + n]))
-        off += 1 + n
+def _expand(msg, at, fields):
+    """reference expansion of an RDATA laid out as ``fields`` [(kind, raw bytes)] starting at message offset ``at``"""
+    out = b""
+    for kind, v in fields:
+        out += _wire(ref_name(msg, at)[0]) if kind == "name" else v
+        at += len(v)
+    return out
 
 
-def _sample_message(layout, vector, forms):
-    """-> (message bytes, rdata offset, rdata end, expected expanded RDATA, offsets of the names the parser has seen before)"""
+def _message(rtype, fields, rclass=1, ttl=300):
+    """A response: question example.com MX; answer 1 = an MX record whose exchange ends in a pointer (owner: an internationalised
+    name); answer 2 = the record under test (``rtype``, RDATA = fields [(kind, bytes | name form)]); answer 3 = TRAILER.
+    -> (message bytes, rdata offset, rdata end, fields with the name forms resolved, raw RDATA of answer 1, its offset)"""
     q = _wire([b"example", b"com"])
-    msg = bytearray(b"\x12\x34\x81\x80\x00\x01\x00\x02\x00\x00\x00\x00") + q + b"\x00\x0f\x00\x01"
+    msg = bytearray(b"\x12\x34\x81\x80\x00\x01\x00\x03\x00\x00\x00\x00") + q + b"\x00\x0f\x00\x01"
     com_at = QNAME_AT + 8
-    # answer 1: MX 5 alt1.gmail-smtp-in.l.google.<ptr com>
     owner1 = len(msg)
     first = b"\x00\x05" + b"\x04alt1" + b"\x0dgmail-smtp-in" + b"\x01l" + b"\x06google" + bytes([0xC0, com_at])
-    msg += b"\x0dxn--bcher-kva" + bytes([0xC0, QNAME_AT]) + struct.pack("!HHIH", 15, 1, 300, len(first))  # owner: an internationalised name
+    msg += b"\x0dxn--bcher-kva" + bytes([0xC0, QNAME_AT]) + struct.pack("!HHIH", 15, 1, 300, len(first))
     rdata1 = len(msg)
     msg += first
     suffix_at = rdata1 + 2 + 5  # gmail-smtp-in.l.google.com
-    # answer 2: the record under test
-    owner2 = len(msg)
     name_forms = {
         "ptr-question": bytes([0xC0, QNAME_AT]),
         "labels+ptr-into-rdata": b"\x04alt2" + bytes([0xC0, suffix_at]),
@@ -429,10 +199,23 @@ def _sample_message(layout, vector, forms):
         "ptr-idn-name": bytes([0xC0, owner1]),
         "ptr-root": bytes([0xC0, QNAME_AT + len(q) - 1]),
     }
+    if suffix_at >= 0xC0 or owner1 >= 0xC0:
+        raise AnalysisError("sample message grew so far that a pointer's second octet looks like a pointer itself")
+    resolved = [(k, name_forms[v] if k == "name" else v) for k, v in fields]
+    rdata = b"".join(v for _, v in resolved)
+    msg += bytes([0xC0, QNAME_AT]) + struct.pack("!HHIH", rtype, rclass, ttl, len(rdata))
+    off = len(msg)
+    msg += rdata
+    t, c, tl, d = TRAILER
+    msg += bytes([0xC0, QNAME_AT]) + struct.pack("!HHIH", t, c, tl, len(d)) + d
+    return bytes(msg), off, off + len(rdata), resolved, first, rdata1
+
+
+def _layout_fields(layout, vector, forms):
     fields, k = [], 0
     for i, kind in enumerate(layout):
         if kind == "name":
-            fields.append(("name", name_forms[forms[k % len(forms)]]))
+            fields.append(("name", forms[k % len(forms)]))
             k += 1
         elif kind == "str":
             v = vector["str"](i)
@@ -441,56 +224,251 @@ def _sample_message(layout, vector, forms):
             fields.append(("raw", vector["opaque"](i)))
         else:
             fields.append(("raw", struct.pack({"u8": "!B", "u16": "!H", "u32": "!I"}[kind], vector[kind](i))))
-    rdata = b"".join(v for _, v in fields)
-    if any(b >= 0xC0 for kind, v in fields if kind == "raw" for b in v):
-        raise AnalysisError("R26.5: a sampled non-name field contains an octet >= 0xC0 (that class belongs to R26.4 / F-C26b)")
-    msg += bytes([0xC0, QNAME_AT]) + struct.pack("!HHIH", 15, 1, 300, len(rdata))
-    off = len(msg)
-    msg += rdata
-    if suffix_at >= 0xC0 or owner1 >= 0xC0:
-        raise AnalysisError("R26.5: sample message grew so far that a pointer's second octet looks like a pointer itself")
-    expected, at = b"", off
-    for kind, v in fields:
-        expected += _wire(_ref_name(msg, at)[0]) if kind == "name" else v
-        at += len(v)
-    return bytes(msg), off, off + len(rdata), expected, (QNAME_AT, owner1, owner2)
+    return fields
 
 
-class _ByteInterp(Interp):
-    """pyint + item / slice assignment on a bytearray (the only extra construct the DNS name routines need)"""
+class Parser:
+    """DNSMessage.unpack_from, interpreted on the sample messages of ``_message``; remembers which functions of domain_names the
+    message parser (code of mitmproxy/dns.py) calls directly."""
 
-    def assign(self, target, value, env, mod, depth):
-        if isinstance(target, ast.Subscript):
-            base = self.ev(target.value, env, mod, depth)
-            if isinstance(base, bytearray):
-                key = self.ev(target.slice, env, mod, depth)
-                try:
-                    base[key] = value
-                except (IndexError, TypeError, ValueError) as e:
-                    raise IRaised(type(e).__name__)
-                return
-        Interp.assign(self, target, value, env, mod, depth)
+    def __init__(self, ctx, true_types):
+        self.ctx = ctx
+        self.true_types = true_types
+        self.it = DnsInterp(ctx.model, max_steps=3_000_000)
+        self.runs = 0
+
+    def parse(self, rtype, fields, rclass=1, ttl=300):
+        """-> dict(outcome, data, expected, raw, msg, window, others_ok, header)"""
+        msg, lo, hi, resolved, first, first_at = _message(rtype, fields, rclass, ttl)
+        it = self.it
+        it.reset_counters()
+        o = unpack_from(it, msg)
+        self.runs += 1
+        self.ctx.cells += 1
+        raw = msg[lo:hi]
+        res = {"msg": msg, "window": (lo, hi), "raw": raw, "expected": _expand(msg, lo, resolved), "outcome": o, "data": None, "header": None, "others": "", "first": ""}
+        if o[0] != "ok":
+            return res
+        n, m = o[1]
+        ans = m["answers"]
+        if n != len(msg) or len(ans) != 3 or m["questions"] != [("example.com", 15, 1)]:
+            res["others"] = f"the message is read as {len(ans)} answers / length {n} (3 answers, {len(msg)} octets were sent)"
+            if len(ans) >= 2:
+                res["data"], res["header"] = ans[1][4], ans[1][1:4]
+            return res
+        res["data"], res["header"] = ans[1][4], ans[1][1:4]
+        want_first = _expand(msg, first_at, [("raw", first[:2]), ("name", first[2:])]) if 15 in self.true_types else first
+        if ans[0][4] != want_first:
+            res["first"] = f"the MX record in front ({first.hex(' ')}) is read with RDATA {bytes(ans[0][4]).hex(' ')}"
+        t, c, tl, d = TRAILER
+        want_trailer = ("example.com", t, c, tl, d)
+        if 1 not in self.true_types and ans[2] != want_trailer:
+            res["others"] = f"the record behind is read as {ans[2]!r} instead of {want_trailer!r}: parsing does not continue at the end of the record's data"
+        return res
 
 
-def check_r265(ctx, true_types, rewriters):
+def predicate_table(ctx, it):
+    """-> (numbers {num: mnemonic}, set of numbers the predicate answers True for): the predicate interpreted for every RR type"""
     m = ctx.model
-    callee = "decompress_from_record_data"
-    if rewriters:
-        names = {raw[1].rsplit(".", 1)[-1] for raw, _ in rewriters if raw[1].startswith("domain_names.")}
-        if len(names) == 1:
-            callee = names.pop()
-    if not m.has(DN, callee):
-        if any(f.rule in ("R26.2", "R26.4") for f in ctx.findings):
-            ctx.instance("R26.5", "not evaluated: the RDATA expansion routine named by unpack_rrs does not exist (reported by R26.2 / R26.4)")
-            return
-        raise AnalysisError(f"R26.5: expansion routine {callee} not found in {DN}")
-    fn = ctx.func(DN, callee)
-    ctx.func(DN, "unpack_from_with_compression")
-    params = [a.arg for a in fn.args.args]
-    if len(params) != 4 or fn.args.kwonlyargs or fn.args.vararg:
-        raise AnalysisError(f"R26.5 models an expansion routine called as (buffer, start, end, name cache); {callee}{tuple(params)} is something else "
-                            "(a layout-aware routine needs a new rule)")
-    where = (DN, callee, fn)
+    fn = ctx.func(DN, "record_data_can_have_compression")
+    types = int_constants(m, TYPES)
+    ctx.require(len(types) >= 80, f"{TYPES}: only {len(types)} integer constants found")
+    numbers = {num: name for name, num in types.items()}
+    for num, name in PROBES.items():
+        numbers.setdefault(num, name)
+    true_types = set()
+    for num in sorted(numbers):
+        o = it.run(DN, fn.name, num)
+        ctx.cells += 1
+        if o[0] != "ok":
+            raise AnalysisError(f"record_data_can_have_compression({num}) {o[0]}s {o[1]}")
+        if not isinstance(o[1], bool):
+            raise AnalysisError(f"record_data_can_have_compression({num}) evaluates to non-bool {o[1]!r}")
+        if o[1]:
+            true_types.add(num)
+    return numbers, true_types
+
+
+def check_r261(ctx, numbers, true_types, type_aware=False):
+    fn = ctx.func(DN, "record_data_can_have_compression")
+    for num in sorted(true_types):
+        if num in NAME_BEARING:
+            why = (f"RDATA of {numbers[num]} embeds a domain name, but RFC 3597 s.4 (and the RFC defining {numbers[num]}) forbids compressing it, so no sender puts a pointer "
+                   "there; the type-agnostic byte scan can only hit the opaque octets around the name (signature, type bitmap, key, preference) that look like "
+                   "`C0 xx` and replace them by an expanded name: the record is not forwarded byte-for-byte")
+        else:
+            why = (f"RDATA of {numbers[num]} is opaque (no domain name defined in it): bytes that look like a compression pointer (0xC0..) are rewritten when the "
+                   "message is forwarded")
+        # a rewriting routine that respects the record's layout confines itself to the name field(s): there a (forbidden, hence
+        # absent) pointer is never found and the opaque octets are not looked at - harmless
+        allowed = MAY_BE_COMPRESSED if not type_aware else NAME_BEARING
+        ctx.check(
+            num in allowed, "R26.1", (DN, "record_data_can_have_compression", fn),
+            f"record type {numbers[num]} ({num}) is treated as containing compressible names", why,
+            desc=f"{numbers[num]}({num}) -> True, RDATA may carry compressed names (RFC 3597 s.4)",
+        )
+    ctx.require(true_types, "record_data_can_have_compression is False for every type: name-bearing records would keep dangling pointers")
+    for num, name in sorted(MUST_BE_EXPANDED.items()):
+        ctx.require(num in numbers, f"{TYPES}: RR type {name} ({num}) is not defined any more")
+        ctx.check(
+            num in true_types, "R26.1", (DN, "record_data_can_have_compression", fn),
+            f"record type {name} ({num}) is not treated as containing compressible names",
+            f"senders do compress the names in {name} RDATA (RFC 1035 s.4.1.4 / RFC 3597 s.4: receivers MUST decompress them); kept as a raw slice the pointer is forwarded "
+            "unexpanded while re-packing moves every offset, so the receiver reads a different name",
+            desc=f"{name}({num}) -> True as required",
+        )
+    ctx.note(f"R26.1 interpreted the predicate for {len(numbers)} type numbers; True for {sorted(true_types)}")
+
+
+def _layout_of(num):
+    for lname, ts in LAYOUT_TYPES.items():
+        if num in ts:
+            return lname
+    return None
+
+
+def check_r262(ctx, parser, numbers, true_types):
+    """the record parser, interpreted on one message per RR type: raw wire slice <=> predicate False; names expanded on exactly the
+    record's window <=> predicate True; header fields; the next record starts at the end of the data"""
+    ctx.func(DNS, "DNSMessage.unpack_from")
+    where = (DNS, "DNSMessage.unpack_from.unpack_rrs", ctx.model.module(DNS).get("DNSMessage.unpack_from.unpack_rrs") or ctx.func(DNS, "DNSMessage.unpack_from"))
+    bad = {k: None for k in ("fields", "slice-window", "rewrite-window", "next", "raw", "rewrite")}
+    seen = {"slice": 0, "rewrite": 0}
+    opaque = [("raw", b"\x05hello"), ("raw", b"\xc0\x0c"), ("raw", b"\x00\x01\xff\xc0"), ("raw", bytes([0xC0, QNAME_AT + 8]))]
+    for num in sorted(numbers):
+        is_true = num in true_types
+        if is_true:
+            lname = _layout_of(num)
+            if lname is None:
+                continue  # a type the rule has no layout for: R26.1 judges whether it may be in the table at all
+            fields = _layout_fields(LAYOUTS[lname], VECTORS["typical"], ("ptr-question", "labels+ptr-into-rdata"))
+        else:
+            fields = opaque
+        rclass, ttl = (3, 0x00010203) if num % 2 else (1, 86400)
+        r = parser.parse(num, fields, rclass, ttl)
+        tag = f"{numbers[num]}({num})"
+        shown = f"RDATA {r['raw'].hex(' ')} of a {tag} record at message offset {r['window'][0]}"
+        if r["outcome"][0] != "ok":
+            k = "rewrite-window" if is_true else "slice-window"
+            bad[k] = bad[k] or f"the parser {r['outcome'][0]}s {r['outcome'][1]} on a well-formed response with {shown}"
+            continue
+        data = r["data"]
+        if r["header"] is not None and tuple(r["header"]) != (num, rclass, ttl):
+            bad["fields"] = bad["fields"] or f"a {tag} record with class {rclass}, ttl {ttl} is built with (type, class_, ttl) = {tuple(r['header'])}: header fields are permuted"
+        if is_true:
+            seen["rewrite"] += 1
+            if data is None or bytes(data) != r["expected"]:
+                if data is not None and bytes(data) == r["raw"]:
+                    bad["rewrite"] = bad["rewrite"] or (f"{shown}: the compression predicate is True for {tag} but the data is kept as the raw slice: the names keep compression "
+                                                        "pointers that dangle once the message is re-packed (predicate not asked about this record's type / never expanded)")
+                else:
+                    got = bytes(data).hex(" ") if data is not None else None
+                    bad["rewrite-window"] = bad["rewrite-window"] or (f"{shown} is read as {got}; the record's data occupies exactly [header end, + length field) and expands to "
+                                                                      f"{r['expected'].hex(' ')}")
+        else:
+            seen["slice"] += 1
+            if data is None or bytes(data) != r["raw"]:
+                if data is not None and bytes(data) in r["msg"]:
+                    bad["slice-window"] = bad["slice-window"] or (f"{shown} is read as {bytes(data).hex(' ')}: not the slice [header end, + length field) of the message")
+                else:
+                    got = bytes(data).hex(" ") if data is not None else None
+                    bad["raw"] = bad["raw"] or (f"{shown} is read as {got} although the compression predicate is False for {tag}: opaque record data is rewritten")
+        if r["others"] and (data is None or bytes(data) == (r["expected"] if is_true else r["raw"])):
+            bad["next"] = bad["next"] or f"{shown}: {r['others']}"
+        elif r["others"]:
+            k = "rewrite-window" if is_true else "slice-window"
+            bad[k] = bad[k] or f"{shown}: {r['others']}"
+    ctx.require((seen["slice"] >= 1 and seen["rewrite"] >= 1) or any(bad.values()) or ctx.findings, f"record parser: expected raw-slice and rewriting record types, saw {seen}")
+    n = seen["slice"] + seen["rewrite"]
+    ctx.check(bad["fields"] is None, "R26.2", where, "ResourceRecord(type, class_, ttl) <- header fields 0,1,2", bad["fields"] or "", desc=f"type/class/ttl from header fields 0,1,2 ({n} records)")
+    ctx.check(bad["slice-window"] is None, "R26.2", where, "RDATA window (slice)", bad["slice-window"] or "", desc="slice: window = header end .. + len_data")
+    ctx.check(bad["rewrite-window"] is None, "R26.2", where, "RDATA window (rewrite)", bad["rewrite-window"] or "", desc="rewrite: window = header end .. + len_data")
+    ctx.check(bad["next"] is None, "R26.2", where, "offset after the record", bad["next"] or "", desc="next record at window end (slice and rewrite)")
+    ctx.check(bad["raw"] is None, "R26.2", where, "raw RDATA slice only when the predicate is False for the record's type", bad["raw"] or "",
+              desc=f"raw slice <=> predicate(type) False ({seen['slice']} types, RDATA with pointer-like octets kept verbatim)")
+    ctx.check(bad["rewrite"] is None, "R26.2", where, "RDATA rewritten only when the predicate is True for the record's type", bad["rewrite"] or "",
+              desc=f"rewrite <=> predicate(type) True ({seen['rewrite']} types)")
+
+
+def expansion_routine(ctx, parser, true_types):
+    """names of the domain_names functions that code of mitmproxy/dns.py calls when it parses a response whose only record has a
+    predicate-True type, but not when that record has a predicate-False type (observed while interpreting the parser)"""
+    cached = getattr(parser, "_routines", None)
+    if cached is not None:
+        return cached
+    q = _wire([b"example", b"com"])
+
+    def calls(rtype, rdata):
+        msg = b"\x12\x34\x81\x80\x00\x01\x00\x01\x00\x00\x00\x00" + q + struct.pack("!HH", rtype, 1) + bytes([0xC0, QNAME_AT]) + struct.pack("!HHIH", rtype, 1, 60, len(rdata)) + rdata
+        parser.it.reset_counters()
+        unpack_from(parser.it, msg)
+        return {callee[1] for caller, callee in parser.it.edges if caller and caller[0] == DNS and callee[0] == DN}
+
+    t = set()
+    for num in sorted(true_types & {n for ts in LAYOUT_TYPES.values() for n in ts})[:3]:
+        fields = [(k, bytes([0xC0, QNAME_AT]) if k == "name" else v) for k, v in _layout_fields(LAYOUTS[_layout_of(num)], VECTORS["typical"], ("ptr-question",))]
+        t |= calls(num, b"".join(v for _, v in fields))
+    f = set()
+    for num in [n for n in (16, 1, 99, 65280) if n not in true_types][:2]:
+        f |= calls(num, b"\x05hello" + bytes([0xC0, QNAME_AT]))
+    parser._routines = sorted(t - f) if f else []
+    return parser._routines
+
+
+POINTERLIKE = {"u8": lambda i: 0xC0, "u16": lambda i: 0xC000 | QNAME_AT, "u32": lambda i: ((0xC000 | QNAME_AT) << 16) | 0xC000 | QNAME_AT,
+               "str": lambda i: bytes([0xC0, QNAME_AT]), "opaque": lambda i: bytes([1, 0xC0, QNAME_AT, 2])}
+
+
+def check_r264(ctx, parser, true_types):
+    """-> True when the expansion respects the per-type layouts (F-C26b repaired)"""
+    where = (DNS, "DNSMessage.unpack_from.unpack_rrs", ctx.model.module(DNS).get("DNSMessage.unpack_from.unpack_rrs") or ctx.func(DNS, "DNSMessage.unpack_from"))
+    name_first = sorted(true_types & NAME_FIRST)
+    mixed = sorted(true_types & HAS_NON_NAME_FIELDS)
+    if not (name_first and mixed):
+        ctx.ok("R26.4", "table has no two types with conflicting layouts; a type-agnostic routine is admissible")
+        return False
+    if any(f.rule == "R26.2" for f in ctx.findings):
+        ctx.instance("R26.4", "not evaluated: R26.2 reports that the record parser does not expand / window RDATA correctly")
+        return False
+    witness = None
+    n = 0
+    for lname, layout in LAYOUTS.items():
+        ts = sorted(LAYOUT_TYPES[lname] & true_types)
+        if not ts or not any(k != "name" for k in layout):
+            continue
+        for num in ts[:2]:
+            r = parser.parse(num, _layout_fields(layout, POINTERLIKE, ("labels+ptr-question", "ptr-question")))
+            n += 1
+            if r["outcome"][0] != "ok" or r["data"] is None or bytes(r["data"]) != r["expected"]:
+                got = bytes(r["data"]).hex(" ") if r["outcome"][0] == "ok" and r["data"] is not None else f"{r['outcome'][0]} {r['outcome'][1]}"
+                witness = witness or f"{NAME_BEARING.get(num, num)} RDATA {r['raw'].hex(' ')} is forwarded as {got} instead of {r['expected'].hex(' ')}"
+    routines = expansion_routine(ctx, parser, true_types)
+    if witness is None:
+        ctx.ok("R26.4", f"RDATA expansion respects the record layouts: numeric / opaque octets that look like compression pointers are left alone ({n} samples)")
+        return True
+    if len(routines) != 1:
+        raise AnalysisError(f"R26.4: cannot name the RDATA expansion routine (functions of domain_names called only for name-bearing records: {routines})")
+    callee = routines[0]
+    ctx.fail(
+        "R26.4", where, f"{callee} is applied to RDATA without the record type",
+        f"the table is True for name-first layouts {[NAME_BEARING[t] for t in name_first]} and for layouts with integer/opaque fields "
+        f"{[NAME_BEARING[t] for t in mixed]}, but {callee} expands RDATA without regard to the type's layout: bytes >= 0xC0 in MX preference, "
+        f"SRV port (49152..65535), SOA counters are read as compression pointers and replaced - interpreted: {witness} (repro: findings/F-C26b/repro.py)",
+    )
+    return False
+
+
+# ---------------------------------------------------------------------------------------------------
+# R26.5  the expansion routine evaluated (through the message parser) on representative messages
+
+
+def check_r265(ctx, parser, true_types):
+    where_fn = None
+    routines = expansion_routine(ctx, parser, true_types)
+    callee = routines[0] if len(routines) == 1 else "decompress_from_record_data"
+    if ctx.model.has(DN, callee):
+        where_fn = ctx.func(DN, callee)
+    where = (DN, callee, where_fn or 0)
     thorough = ctx.tier == "thorough"
     form_sets = [("ptr-question", "labels+ptr-into-rdata"), ("labels+ptr-into-rdata", "ptr-question"), ("uncompressed", "labels+ptr-question"), ("punycode+ptr", "labels+ptr-into-rdata")]
     # a pointer to an internationalised name followed by a second pointer: sampled in the SOA layout (zone = IDN), names 1 and 2
@@ -498,7 +476,8 @@ def check_r265(ctx, true_types, rewriters):
     root_forms = ("ptr-root", "labels+ptr-question")
     n = 0
     for lname, layout in LAYOUTS.items():
-        if not (LAYOUT_TYPES[lname] & true_types):
+        ts = sorted(LAYOUT_TYPES[lname] & true_types)
+        if not ts:
             continue
         reported = set()
         numeric = any(k != "name" for k in layout)
@@ -506,40 +485,64 @@ def check_r265(ctx, true_types, rewriters):
             if not thorough and (vname == "zero" or (vname == "mixed" and not numeric)):
                 continue
             for forms in form_sets + ([idn_forms, root_forms] if lname.startswith("SOA") and vname == "typical" else []):
-                buf, lo, hi, expected, seen = _sample_message(layout, vector, forms)
-                for warm in (False, True):
-                    if warm and not thorough and forms is not form_sets[0]:
-                        continue
-                    it = _ByteInterp(m, trusted_modules={"struct": struct}, max_steps=60000)
-                    cache: dict = {}
-                    try:
-                        if warm:
-                            for o in seen:
-                                it.call(DN, "unpack_from_with_compression", buf, o, cache)
-                        got = it.call(DN, callee, buf, lo, hi, cache)
-                    except IRaised as e:
-                        got = f"raises {e.name}"
+                fields = _layout_fields(layout, vector, forms)
+                if any(b >= 0xC0 for kind, v in fields if kind == "raw" for b in v):
+                    raise AnalysisError("R26.5: a sampled non-name field contains an octet >= 0xC0 (that class belongs to R26.4 / F-C26b)")
+                for num in (ts if thorough else ts[:1]):
+                    r = parser.parse(num, fields)
                     n += 1
-                    ctx.cells += 1
-                    ok = isinstance(got, (bytes, bytearray)) and bytes(got) == expected
+                    o = r["outcome"]
+                    ok = o[0] == "ok" and r["data"] is not None and bytes(r["data"]) == r["expected"] and not r["others"] and not r["first"]
                     group = "idn" if forms is idn_forms else "root" if forms is root_forms else "plain"
                     if ok or group in reported:
                         continue
                     reported.add(group)
                     nforms = [f for f, k in zip(forms * 2, [k for k in layout if k == "name"])]
-                    shown = got.hex(" ") if isinstance(got, (bytes, bytearray)) else got
+                    shown = (bytes(r["data"]).hex(" ") if r["data"] is not None else r["others"]) if o[0] == "ok" else f"{o[0]}s {o[1]}"
+                    lo, hi = r["window"]
                     ctx.fail("R26.5", where, f"{callee} on {lname.split(':')[0].split(' (')[0]} RDATA, {vname} numeric fields, names {'/'.join(nforms)}",
-                             f"RDATA {buf[lo:hi].hex(' ')} (message offset {lo}, {'warm' if warm else 'empty'} name cache) is rewritten to {shown}; every name expanded and everything else "
-                             f"unchanged is {expected.hex(' ')}: the record is forwarded with a different meaning",
-                             message=buf.hex(), window=[lo, hi], got=shown, expected=expected.hex())
+                             f"RDATA {r['raw'].hex(' ')} (message offset {lo}, parsed as {NAME_BEARING.get(num, num)}) is rewritten to {shown}{'; ' + (r['others'] or r['first']) if o[0] == 'ok' and r['data'] is not None and (r['others'] or r['first']) else ''}; "
+                             f"every name expanded and everything else unchanged is {r['expected'].hex(' ')}: the record is forwarded with a different meaning",
+                             message=r["msg"].hex(), window=[lo, hi], got=shown, expected=r["expected"].hex())
         if not reported:
             ctx.instance("R26.5", f"{lname}: all samples expand exactly the names")
-    ctx.note(f"R26.5 interpreted {callee} on {n} sample records")
+    ctx.note(f"R26.5 interpreted the record parser + {callee} on {n} sample records")
     if not any(f.rule == "R26.1" for f in ctx.findings):  # a table that lost its types is R26.1's verdict
         ctx.require(n >= 20, f"R26.5 evaluated only {n} samples")
 
 
 # ---------------------------------------------------------------------------------------------------
+
+HANDLERS = ("handle_request", "handle_response", "handle_error")
+
+
+class LayerSpec(SendSpec):
+    """SendSpec + inlining of DNSLayer's private helper methods (`self._name(..)`); the public handlers and unpack_message are the rule's alphabet"""
+
+    max_depth = 5
+
+    def __init__(self, model, **kw):
+        SendSpec.__init__(self, **kw)
+        self._model = model
+
+    def inline(self, call, st, depth):
+        name = attr_chain(call.func)
+        if name and name.startswith("self._") and not name.startswith("self.__") and name.count(".") == 1 and name[5:] not in HANDLERS and self._model.has(LAYER, "DNSLayer"):
+            r = self._model.method(LAYER, "DNSLayer", name[5:])
+            if r is not None and r[0].rel == LAYER and isinstance(r[1], ast.FunctionDef):
+                return r[1]
+        return None
+
+
+SAMPLE_MESSAGES = [
+    {"id": 0x0102, "query": True, "op_code": 0, "authoritative_answer": False, "truncation": False, "recursion_desired": True, "recursion_available": False,
+     "reserved": 0, "response_code": 0, "questions": [("example.com", 16, 1)], "answers": [], "authorities": [], "additionals": []},
+    {"id": 0xBEEF, "query": False, "op_code": 0, "authoritative_answer": True, "truncation": False, "recursion_desired": True, "recursion_available": True,
+     "reserved": 0, "response_code": 0, "questions": [("example.com", 16, 1)],
+     "answers": [("example.com", 16, 1, 300, b"\x05hello\xc0\x0c\xff"), ("example.com", 16, 1, 300, bytes((7 * i + 3) % 256 for i in range(300)))],
+     "authorities": [("example.com", 99, 1, 60, b"\xc0\xc0")],
+     "additionals": [("ns.example.com", 1, 1, 5, b"\x0a\x00\x00\x01"), ("ns.example.com", 28, 1, 6, bytes(range(16)))]},
+]
 
 
 def check_r263(ctx):
@@ -551,8 +554,9 @@ def check_r263(ctx):
     ):
         fn = ctx.func(LAYER, qual)
         params = [a.arg for a in fn.args.args]
-        ctx.require(params[:3] == ["self", "flow", "msg"], f"{qual} signature changed: {params}")
-        traces, eng = traces_of(fn, SendSpec())
+        ctx.require(len(params) >= 3 and params[0] == "self", f"{qual} signature changed: {params}")
+        p_msg = params[2]
+        traces, eng = traces_of(fn, LayerSpec(m))
         ctx.paths += len(traces)
         n = 0
         for trace, how, st in traces:
@@ -568,14 +572,14 @@ def check_r263(ctx):
                     raise AnalysisError(f"{qual}: payload sent to {conn} is not pack_message(<message>, ..): {show(pay)}")
                 x = args[0]
                 hooked_before = any(t == ("hook", hook) for t in trace[:i])
-                ok = unhook(x) == sym("msg") and (x == sym("msg") or hooked_before)
+                ok = unhook(x) == sym(p_msg) and (x == sym(p_msg) or hooked_before)
                 ctx.check(ok and hooked_before, "R26.3", (LAYER, qual, fn), f"SendData({conn}, pack_message(flow.{attr}, ..))",
                           f"{qual} sends pack_message({show(x)}) to {conn}: not the message that was unpacked and stored in flow.{attr} (after {hook})",
                           desc=f"{qual}: packs the unpacked message after {hook}")
         ctx.require(n >= 1, f"{qual}: no SendData found")
     # (c) state_query hands over the unpacked elements
     sq = ctx.func(LAYER, "DNSLayer.state_query")
-    spec = SendSpec(loop_vars=SymSpec.loop_vars_of(sq))
+    spec = LayerSpec(m, loop_vars=SymSpec.loop_vars_of(sq))
     traces, eng = traces_of(sq, spec)
     ctx.paths += len(traces)
     subs = {}
@@ -594,83 +598,116 @@ def check_r263(ctx):
             ctx.check(ok, "R26.3", (LAYER, "DNSLayer.state_query", sq), f"{name}(flow, <element of unpack_message(event.data, ..)>)",
                       f"state_query passes {show(args[1]) if len(args) > 1 else args} to {name}: not a message unpacked from the received bytes",
                       desc=f"{name} receives each element of unpack_message(event.data)")
-    # (d) framing formats
-    pm = ctx.func(LAYER, "pack_message")
-    ctx.require([a.arg for a in pm.args.args] == ["message", "transport_protocol"], "pack_message signature changed")
-    traces, eng = traces_of(pm, SymSpec(pure=("len",)))
-    label = m.const(LAYER, "_LENGTH_LABEL")
-    ctx.require(isinstance(label, ast.Call) and last_attr(label.func) == "Struct" and label.args and isinstance(label.args[0], ast.Constant),
-                "_LENGTH_LABEL is no struct.Struct(<literal>) any more")
-    fmt_in = label.args[0].value
-    ctx.check(fmt_in in ("!H", ">H"), "R26.3", (LAYER, "<module>", label), f"_LENGTH_LABEL = Struct({fmt_in!r})",
-              "DNS over TCP uses a 2-byte big-endian length prefix (RFC 1035 4.2.2)", desc="reader: 2-byte big-endian length")
-    P = sym("message.packed")
-    rets = {}
-    for trace, how, st in traces:
-        ctx.require(how == "return", f"pack_message can {how}")
-        conds = [e for e in trace if e[0] == "cond"]
-        rets[tuple((c[1], c[2]) for c in conds)] = st.get("$ret")
-    tcp = [v for k, v in rets.items() if any("tcp" in c and t for c, t in k)]
-    other = [v for k, v in rets.items() if not any("tcp" in c and t for c, t in k)]
-    ctx.require(len(tcp) == 1 and len(other) >= 1, f"pack_message paths not understood: {rets}")
-    for v in other:
-        ctx.check(v == P, "R26.3", (LAYER, "pack_message", pm), "datagram payload == message.packed", f"non-TCP payload is {show(v)}", desc="udp: message.packed")
-    v = tcp[0]
-    ok = False
-    if isinstance(v, tuple) and v[0] == "add" and v[2] == P:
-        a = call_args(v[1])
-        ok = a is not None and v[1][1] == "struct.pack" and len(a) == 2 and is_const(a[0]) and a[0][1] in ("!H", ">H") and a[1] == ("len", P)
-    ctx.check(ok, "R26.3", (LAYER, "pack_message", pm), "tcp payload == struct.pack('!H', len(packed)) + packed",
-              f"TCP payload is {show(v)}: the length prefix must be the 2-byte big-endian length of exactly the bytes that follow (reader uses {fmt_in!r})",
-              desc="tcp: 2-byte big-endian len(packed) + packed")
-    # (e) packed(): rr.data verbatim, sections in wire order
+    # (e) packed(): rr.data verbatim with its own length, sections in wire order (encoder interpreted, read by the reference decoder)
     pk = ctx.func(DNS, "DNSMessage.packed")
-    loops = [n for n in walk_in_order(pk) if isinstance(n, ast.For) and "answers" in ast.unparse(n.iter)]
-    ctx.require(len(loops) == 1 and isinstance(loops[0].target, ast.Name), "DNSMessage.packed: the record loop changed shape")
-    loop = loops[0]
-    it = loop.iter
-    order = None
-    if isinstance(it, ast.Tuple) and all(isinstance(e, ast.Starred) for e in it.elts):
-        order = [attr_chain(e.value) for e in it.elts]
-    elif isinstance(it, ast.Call) and last_attr(it.func) == "chain":
-        order = [attr_chain(e) for e in it.args]
-    ctx.require(order is not None, f"DNSMessage.packed: record iteration not understood: {norm(it)}")
-    ctx.check(order == ["self.answers", "self.authorities", "self.additionals"], "R26.3", (DNS, "DNSMessage.packed", loop), "record sections in wire order",
-              f"records are emitted in the order {order}; the header counts say answers, authorities, additionals", desc="sections emitted in wire order")
-    rrname = loop.target.id
-    body_fn = ast.parse("def _body():\n    pass\n").body[0]
-    body_fn.body = loop.body
-    bspec = SendSpec()
-    traces, eng = traces_of(body_fn, bspec)
-    RR = ("elem", bspec.value(loop.iter, State(), 0))  # "an element of the iterated sections"
-    for trace, how, st in traces:
-        ext = [e[2] for e in trace if e[0] == "extend"]
-        datas = [i for i, x in enumerate(ext) if contains(x, attr_of(RR, "data")) and last_attr_name(x) != "ResourceRecord.HEADER.pack" and not (isinstance(x, tuple) and x[0] == "call")]
-        hdrs = [i for i, x in enumerate(ext) if isinstance(x, tuple) and x[0] == "call" and x[1].endswith("HEADER.pack")]
-        ctx.require(len(hdrs) == 1, f"DNSMessage.packed: {len(hdrs)} header packs per record")
-        h = call_args(ext[hdrs[0]])
-        ok = (
-            h is not None and len(h) == 4 and h[0] == attr_of(RR, "type") and h[1] == attr_of(RR, "class_") and h[2] == attr_of(RR, "ttl")
-            and h[3] == ("len", attr_of(RR, "data")) and datas == [hdrs[0] + 1] and ext[datas[0]] == attr_of(RR, "data")
-        )
-        ctx.check(ok, "R26.3", (DNS, "DNSMessage.packed", loop), "header(type, class_, ttl, len(rr.data)) followed by rr.data",
-                  f"a record is emitted as {[show(x) for x in ext]}: RDATA must follow its header verbatim with its own length", desc="packed(): rr.data verbatim after its header")
+    it = DnsInterp(m, max_steps=3_000_000)
+    bad_data = bad_order = None
+    for msg in SAMPLE_MESSAGES:
+        p = packed(it, msg)
+        ctx.cells += 1
+        if p[0] != "ok":
+            raise AnalysisError(f"DNSMessage.packed {p[0]}s {p[1]} on a sample message")
+        p = p[1]
+        try:
+            back = ref_decode(p)
+        except RefError as e:
+            bad_data = bad_data or f"DNSMessage.packed emits bytes an RFC 1035 decoder rejects ({e})"
+            continue
+        recs = [r for s in SECTIONS for r in msg[s]]
+        got = [r for s in SECTIONS for r in back[s]]
+        if [len(back[s]) for s in SECTIONS] == [len(msg[s]) for s in SECTIONS] and sorted(map(repr, got)) == sorted(map(repr, recs)) and got != recs:
+            bad_order = bad_order or f"records are emitted in an order that puts them into other sections than they came from: {[(r[0], r[1]) for r in got]} for {[(r[0], r[1]) for r in recs]}"
+        elif public(back) != msg:
+            bad_data = bad_data or f"a message packs to bytes that an RFC 1035 decoder reads differently: {diff(back, msg)}: RDATA must follow its header verbatim with its own length"
+    ctx.check(bad_order is None, "R26.3", (DNS, "DNSMessage.packed", pk), "record sections in wire order", bad_order or "", desc="sections emitted in wire order")
+    ctx.check(bad_data is None, "R26.3", (DNS, "DNSMessage.packed", pk), "header(type, class_, ttl, len(rr.data)) followed by rr.data", bad_data or "",
+              desc="packed(): rr.data verbatim after its header (pointer-like octets, 300-octet data)")
+    # (d) framing: pack_message and the reader (DNSLayer.unpack_message), both interpreted, against RFC 1035 s.4.2
+    pm = ctx.func(LAYER, "pack_message")
+    um = ctx.func(LAYER, "DNSLayer.unpack_message")
+    ctx.require(len(pm.args.posonlyargs + pm.args.args) >= 2, "pack_message is no longer called as (message, transport protocol)")
+    wires, expect = [], []
+    bad_udp = bad_tcp = bad_reader = None
+    for msg in SAMPLE_MESSAGES:
+        p = packed(it, msg)
+        if p[0] != "ok":
+            raise AnalysisError(f"DNSMessage.packed {p[0]}s {p[1]} on a sample message")
+        p = p[1]
+        for proto in ("udp", "tcp"):
+            o = it.run(LAYER, pm.name, mk_message(msg), proto)
+            ctx.cells += 1
+            want = p if proto == "udp" else struct.pack("!H", len(p)) + p
+            if o != ("ok", want):
+                got = o[1][:8].hex(" ") + "..." if o[0] == "ok" and isinstance(o[1], (bytes, bytearray)) else repr(o[1])
+                if proto == "udp":
+                    bad_udp = bad_udp or f"pack_message(.., 'udp') gives {got} for a message that packs to {p[:8].hex(' ')}... ({len(p)} octets): a datagram carries exactly the packed message"
+                else:
+                    bad_tcp = bad_tcp or (f"pack_message(.., 'tcp') gives {got} for a message of {len(p)} octets: over TCP the message is preceded by its length as a 2-byte "
+                                          f"big-endian integer ({want[:2].hex(' ')} here, RFC 1035 s.4.2.2) and followed by nothing")
+            elif proto == "tcp":
+                wires.append((o[1], msg))
+    ctx.check(bad_udp is None, "R26.3", (LAYER, "pack_message", pm), "datagram payload == message.packed", bad_udp or "", desc="udp: message.packed")
+    ctx.check(bad_tcp is None, "R26.3", (LAYER, "pack_message", pm), "tcp payload == struct.pack('!H', len(packed)) + packed", bad_tcp or "",
+              desc="tcp: 2-byte big-endian len(packed) + packed")
+    if wires:
+        # the reader is fed what the writer produced: whole, and split inside the prefix / inside the message
+        stream = b"".join(w for w, _ in wires)
+        expect = []
+        for _, msg in wires:
+            u = unpack(it, packed(it, msg)[1])
+            if u[0] != "ok":
+                if bad_data or bad_order:
+                    expect = None  # the encoder is already reported: nothing to compare the reader with
+                    break
+                raise AnalysisError(f"DNSMessage.unpack {u[0]}s {u[1]} on the packed form of a sample message")
+            expect.append(u[1])
+        for cuts in ((), (1,), (len(wires[0][0]) + 1, len(stream) - 3)) if expect is not None else ():
+            me = layer_self("tcp")
+            got, prev = [], 0
+            for cut in list(cuts) + [len(stream)]:
+                o = layer_unpack(it, me, stream[prev:cut])
+                prev = cut
+                ctx.cells += 1
+                if o[0] != "ok":
+                    bad_reader = bad_reader or f"DNSLayer.unpack_message {o[0]}s {o[1]!r} on the bytes pack_message(.., 'tcp') produced (chunk boundaries {cuts})"
+                    break
+                got += o[1]
+            else:
+                if got != expect:
+                    bad_reader = bad_reader or (f"DNSLayer.unpack_message reads {len(got)} message(s) {[g.get('id') for g in got]} from the stream pack_message(.., 'tcp') wrote for "
+                                                f"{[e.get('id') for e in expect]} (chunk boundaries {cuts}): writer and reader disagree about the length prefix")
+        if expect is not None:
+            o = layer_unpack(it, layer_self("udp"), wires[0][0][2:])
+            if o[0] != "ok" or o[1] != expect[:1]:
+                bad_reader = bad_reader or f"DNSLayer.unpack_message does not read back the datagram pack_message(.., 'udp') wrote: {o!r}"
+    if wires and expect is not None:
+        ctx.check(bad_reader is None, "R26.3", (LAYER, "DNSLayer.unpack_message", um), "reader and writer agree on the TCP length prefix", bad_reader or "",
+                  desc="reader: the framed stream written by pack_message is read back message by message (whole and split)")
+    else:
+        ctx.instance("R26.3", "reader not evaluated: the writer's framing is already reported")
 
 
 def check(ctx):
+    roomy(lambda: _check(ctx))
+
+
+def _check(ctx):
     ctx.rule("R26.1", "compression predicate True only for RR types whose RDATA is defined to contain domain names (finite evaluation)")
-    ctx.rule("R26.2", "unpack_rrs: raw wire slice <=> predicate(type) False; rewriting on exactly that window <=> True; offsets consistent")
+    ctx.rule("R26.2", "record parser: raw wire slice <=> predicate(type) False; names expanded on exactly that window <=> True; offsets consistent")
     ctx.rule("R26.3", "DNSLayer repacks the unpacked message object; framing formats agree; packed() emits rr.data verbatim")
     ctx.rule("R26.5", "the RDATA expansion routine, interpreted on representative records of every layout in the table, expands exactly the names and leaves every other octet alone")
     ctx.rule("R26.4", "RDATA name expansion must depend on the record type when the table mixes name-first and integer-first layouts")
     ctx.trust("struct pack/unpack, bytes.decode('idna')")
-    rewriters = check_r262(ctx)
-    type_aware = bool(rewriters) and all(contains(raw[2], type_v) for raw, type_v in rewriters)
-    true_types = check_r261(ctx, type_aware)
-    check_r263(ctx)
-    check_r264(ctx, true_types, rewriters)
-    check_r265(ctx, true_types, rewriters)
-    for rule, n in (("R26.1", 19 + 12), ("R26.2", 8), ("R26.3", 10), ("R26.4", 1), ("R26.5", 9)):
+    require_fields(ctx.model)
+    it = DnsInterp(ctx.model)
+    numbers, true_types = predicate_table(ctx, it)
+    parser = Parser(ctx, true_types)
+    ctx.guard(check_r262, ctx, parser, numbers, true_types)
+    type_aware = bool(ctx.guard(check_r264, ctx, parser, true_types))
+    check_r261(ctx, numbers, true_types, type_aware)
+    ctx.guard(check_r263, ctx)
+    ctx.guard(check_r265, ctx, parser, true_types)
+    for rule, n in (("R26.1", 19 + 12), ("R26.2", 6), ("R26.3", 9), ("R26.4", 1), ("R26.5", 9)):
         if not any(f.rule == rule for f in ctx.findings):  # a violated rule has its verdict; counts guard against vacuous passes
             ctx.expect_instances(rule, n)
 
@@ -711,6 +748,6 @@ MUTANTS = [
            "                pass\n        elif buffer[offset + data_offset] < 64:\n            data_offset += buffer[offset + data_offset]\n        data_offset += 1\n    return bytes(data)", "R26.5"),
     Mutant("scan-stops-two-octets-early", DN, "    while data_offset < end_data - offset:\n", "    while data_offset < end_data - offset - 2:\n", "R26.5"),
     Mutant("splice-keeps-second-pointer-octet", DN, "                    + rr_name_len\n                ] = packed_name\n", "                    + 1\n                ] = packed_name\n", "R26.5"),
-    # R26.4 (fires on the unrepaired tree with a known key; the mutant models a renamed / rewritten routine that still is type-agnostic)
-    Mutant("renamed-scan-still-type-agnostic", DNS, "data = domain_names.decompress_from_record_data(\n", "data = domain_names.expand_pointers_in_record_data(\n", "R26.4"),
+    # R26.4 (fires on the unrepaired tree with a known key; the mutant models a renamed routine - old name kept as an alias - that still is type-agnostic)
+    Mutant("renamed-scan-still-type-agnostic", DN, "def decompress_from_record_data(\n    buffer: bytes, offset: int, end_data: int, cached_names: Cache\n) -> bytes:\n    # we decompress compression pointers in RDATA by iterating through each byte and checking\n    # if it has a leading 0b11, if so we try to decompress it and update it in the data variable.\n    data = bytearray(buffer[offset:end_data])\n    data_offset = 0\n    decompress_size = 0\n    while data_offset < end_data - offset:\n        if buffer[offset + data_offset] & _POINTER_INDICATOR == _POINTER_INDICATOR:\n            try:\n                (\n                    rr_name,\n                    rr_name_len,\n                ) = unpack_from_with_compression(\n                    buffer, offset + data_offset, cached_names\n                )\n                packed_name = pack(rr_name)\n                data[\n                    data_offset + decompress_size : data_offset\n                    + decompress_size\n                    + rr_name_len\n                ] = packed_name\n                decompress_size += len(packed_name) - rr_name_len\n                data_offset += rr_name_len\n                continue\n            except (struct.error, ValueError):\n                # the byte isn't actually a domain name compression pointer but some other data type\n                pass\n        data_offset += 1\n    return bytes(data)\n", "def expand_pointers_in_record_data(\n    buffer: bytes, offset: int, end_data: int, cached_names: Cache\n) -> bytes:\n    # we decompress compression pointers in RDATA by iterating through each byte and checking\n    # if it has a leading 0b11, if so we try to decompress it and update it in the data variable.\n    data = bytearray(buffer[offset:end_data])\n    data_offset = 0\n    decompress_size = 0\n    while data_offset < end_data - offset:\n        if buffer[offset + data_offset] & _POINTER_INDICATOR == _POINTER_INDICATOR:\n            try:\n                (\n                    rr_name,\n                    rr_name_len,\n                ) = unpack_from_with_compression(\n                    buffer, offset + data_offset, cached_names\n                )\n                packed_name = pack(rr_name)\n                data[\n                    data_offset + decompress_size : data_offset\n                    + decompress_size\n                    + rr_name_len\n                ] = packed_name\n                decompress_size += len(packed_name) - rr_name_len\n                data_offset += rr_name_len\n                continue\n            except (struct.error, ValueError):\n                # the byte isn't actually a domain name compression pointer but some other data type\n                pass\n        data_offset += 1\n    return bytes(data)\n\n\ndecompress_from_record_data = expand_pointers_in_record_data\n", "R26.4"),
 ]
